@@ -307,6 +307,15 @@ example (o : Oracles) : ∀ e, runChecked o [.setupGrid demoArgs demoGrid 1 1 2,
     · exact demo_valid
     all_goals trivial)
 
+/-- the size of the output buffer is the state size of the system the engine was INITIALISED with (`CWorld.stateSize` is
+written by the set-up calls only).  Were it re-read at `get_output()` from a script object to which the caller has meanwhile
+assigned a smaller system (1 value per record instead of the 2 of `demoArgs`), the export would write past the buffer: the
+checked-access model faults; with the size captured at set-up it does not.  (Harness stream `caller_script_jobs`.) -/
+theorem output_buffer_of_a_smaller_system_faults :
+    ((setupGridC demoArgs demoGrid 1 1 >>= fun S => getOutputC S 1).toOption.isSome) = false ∧
+    ((setupGridC demoArgs demoGrid 1 1 >>= fun S => getOutputC S 2).toOption.isSome) = true := by
+  constructor <;> decide +kernel
+
 /-- the allocation machine of the two-pointer model of C10 (kept: it also covers the wrapper / two space types) -/
 theorem engine_never_faults_alloc {σ ω : Type} (h : List (Call σ ω)) (hr : Respecting false h) :
     ∀ ob ∈ ((World.boot : World σ ω).runHist (h.map fun c => (Obj.A, c))).2, ob ≠ Obs.fault :=
